@@ -76,7 +76,7 @@ func init() {
 	register(&PropSpec{ID: "C09",
 		Explanation: "Structural clauses of Sync (Subtitles.Add): frame condition (writes only StartAt, EndAt and the item slice); both boundaries of a cue receive the same update expression; the in-place deletion rewinds the loop index on every path; the CLI sync sub-command calls Add with the -s flag and then writes. Not decided: that the shift equals d, the clamp, exactly which cues are removed.",
 		Assumptions: commonAssumptions,
-		Rules:       []Rule{{"frame", ruleFrame("Subtitles.Add")}, {"twin-update", ruleTwinUpdate("Subtitles.Add")}, {"delete-rewind", ruleDeleteRewind("Subtitles.Add")}, {"cli", ruleCLIDispatch("sync")}},
+		Rules:       []Rule{{"frame", ruleFrame("Subtitles.Add")}, {"twin-update", ruleTwinUpdate("Subtitles.Add")}, {"delete-rewind", ruleDeleteRewind("Subtitles.Add")}, {"full-scan", ruleFullScan("Subtitles.Add")}, {"cli", ruleCLIDispatch("sync")}},
 	})
 	register(&PropSpec{ID: "C10",
 		Explanation: "Structural clauses of Fragment: frame condition; every new piece is a whole-value copy of its source item; every path from an insertion to a return passes Order(); CLI fragment → Fragment(-f). Not decided: where the cuts fall (the known last-listed-cue bound fault is a run-time bound and stays invisible).",
@@ -86,7 +86,7 @@ func init() {
 	register(&PropSpec{ID: "C11",
 		Explanation: "Structural clauses of Unfragment: frame condition (only EndAt and the slice); delete-rewind on the inner index; Order() dominates the scan; the merge test compares Item.String() of both cues and that function reads every run's text; CLI unfragment. Not decided: which pairs merge, the fixpoint, the inverse law against Fragment.",
 		Assumptions: commonAssumptions,
-		Rules:       []Rule{{"frame", ruleFrame("Subtitles.Unfragment")}, {"delete-rewind", ruleDeleteRewind("Subtitles.Unfragment")}, {"order-before-scan", ruleOrderBefore}, {"text-identity", ruleTextIdentity}, {"cli", ruleCLIDispatch("unfragment")}},
+		Rules:       []Rule{{"frame", ruleFrame("Subtitles.Unfragment")}, {"delete-rewind", ruleDeleteRewind("Subtitles.Unfragment")}, {"order-before-scan", ruleOrderBefore}, {"complementary-exit", ruleComplementaryExit}, {"text-identity", ruleTextIdentity}, {"cli", ruleCLIDispatch("unfragment")}},
 	})
 	register(&PropSpec{ID: "C12",
 		Explanation: "Order: only permutes (frame), through sort.SliceStable with a strict < on StartAt of (i, j). Merge: s.Items = append(s.Items, i.Items...) then Order() (receiver first, stable ⇒ A's cues ahead of B's on equal starts); definitions stored only on the not-found edge of a lookup under the same key (receiver wins); no effect rooted at the argument; no store into a nil map (receivers built without the constructor); CLI merge. With a correct library sort these are the statement. Not decided: correctness of sort.SliceStable.",
@@ -96,7 +96,7 @@ func init() {
 	register(&PropSpec{ID: "C13",
 		Explanation: "Optimize: only deletes map entries (frame), only when the list has a cue, under the key being ranged; the marking code reads every reference edge of the model (every *Style / *Region field of Item, Line, LineItem, Region, Style, computed from the type declarations, incl. Style.Style). RemoveStyling: writes all and only the styling fields (computed from the types), with nil / empty-map values. CLI optimize. Not decided: closure depth beyond reading each edge, idempotence, write/read-back.",
 		Assumptions: commonAssumptions,
-		Rules:       []Rule{{"frame-optimize", ruleFrame("Subtitles.Optimize")}, {"frame-removestyling", ruleFrame("Subtitles.RemoveStyling")}, {"reference-edges", ruleOptimizeEdges}, {"styling-complete", ruleRemoveStylingComplete}, {"optimize-guard", ruleOptimizeGuard}, {"cli", ruleCLIDispatch("optimize")}},
+		Rules:       []Rule{{"frame-optimize", ruleFrame("Subtitles.Optimize")}, {"frame-removestyling", ruleFrame("Subtitles.RemoveStyling")}, {"reference-edges", ruleOptimizeEdges}, {"marking-order", ruleMarkingOrder}, {"styling-complete", ruleRemoveStylingComplete}, {"unconditional-clearing", ruleUnconditionalClearing}, {"optimize-guard", ruleOptimizeGuard}, {"cli", ruleCLIDispatch("optimize")}},
 	})
 	register(&PropSpec{ID: "C14",
 		Explanation: "Structural clauses of ForceDuration: frame (only EndAt and the slice); the filler is appended only on the true edge of the addDummyItem parameter; every store is dominated by the false edge of Duration() == d whose true edge returns at once; Duration has no effect. Not decided: which cues are trimmed, the resulting duration, the filler interval.",
@@ -106,6 +106,6 @@ func init() {
 	register(&PropSpec{ID: "C15",
 		Explanation: "Structural clauses of ApplyLinearCorrection: frame (only StartAt/EndAt, never the slice or its order); both boundaries are mapped by the identical expression (tree isomorphism up to the field swap); CLI passes a1, d1, a2, d2 in that order. Not decided: that the expression is the affine map within 1 µs (floating-point values).",
 		Assumptions: commonAssumptions,
-		Rules:       []Rule{{"frame", ruleFrame("Subtitles.ApplyLinearCorrection")}, {"twin-update", ruleTwinUpdate("Subtitles.ApplyLinearCorrection")}, {"cli", ruleCLIDispatch("apply-linear-correction")}},
+		Rules:       []Rule{{"frame", ruleFrame("Subtitles.ApplyLinearCorrection")}, {"twin-update", ruleTwinUpdate("Subtitles.ApplyLinearCorrection")}, {"full-scan", ruleFullScan("Subtitles.ApplyLinearCorrection")}, {"cli", ruleCLIDispatch("apply-linear-correction")}},
 	})
 }
